@@ -168,6 +168,7 @@ type Interp struct {
 	pcFacts   map[*Term]bool
 	noMerge   bool
 	enum2     bool
+	canonMemo map[*Term]canonEnt
 	allowInit *ssa.Function
 	uniqueTab map[string]*value
 	mergeFail map[*ssa.If]int
@@ -363,7 +364,11 @@ func (in *Interp) visitInstr(fr *frame, instr ssa.Instruction) continuation {
 		v := in.unop(instr, fr.get(instr.X))
 		fr.set(instr, v)
 	case *ssa.BinOp:
-		fr.set(instr, in.binop(instr.Op, instr.X.Type(), instr.Y.Type(), fr.get(instr.X), fr.get(instr.Y)))
+		r := in.binop(instr.Op, instr.X.Type(), instr.Y.Type(), fr.get(instr.X), fr.get(instr.Y))
+		if t, ok := r.(*Term); ok && t.size >= 40 {
+			r = norm(in.canon(t))
+		}
+		fr.set(instr, r)
 	case *ssa.Call:
 		fn, args := in.prepareCall(fr, &instr.Call)
 		fr.set(instr, in.call(fr, fn, args, instr))
@@ -372,7 +377,11 @@ func (in *Interp) visitInstr(fr *frame, instr ssa.Instruction) continuation {
 	case *ssa.ChangeType:
 		fr.set(instr, fr.get(instr.X))
 	case *ssa.Convert:
-		fr.set(instr, in.conv(instr.Type(), instr.X.Type(), fr.get(instr.X)))
+		r := in.conv(instr.Type(), instr.X.Type(), fr.get(instr.X))
+		if t, ok := r.(*Term); ok && t.size >= 40 {
+			r = norm(in.canon(t))
+		}
+		fr.set(instr, r)
 	case *ssa.MultiConvert:
 		fr.set(instr, in.conv(instr.Type(), instr.X.Type(), fr.get(instr.X)))
 	case *ssa.SliceToArrayPointer:
